@@ -6,7 +6,7 @@ HOOK_COMMITS = ["1ce4350", "cf6c482"]
 
 SYM_NOTE = ("Trusted: the reading of the statement written in spec/Val.tla, Shape.tla, TensorOps.tla, Components.tla, Prog.tla (derivatives only by symbolic differentiation of definitions; closed forms cross-checked by TLC on rational instances); the float64 term evaluator and its first-order error bound (Go math on both sides). Shapes / arguments exhaustive within the stated grid; element values sampled (seeded, boundary values included), not exhaustive.")
 SYM_TECH = "TLA+ spec evaluated by TLC as exhaustive-in-bounds case generator; spec -> code replay with float64 assignments"
-TWINS = (" Every replayed case is additionally executed in four twin runs whose tensors, flags and gradients must be bit-identical to the plain run: the inputs rebuilt with the same elements through other constructions (patched Zeros / Full tensor, concatenated slices, double transpose, reshape round trip, same-shape broadcast); read-only API calls (Slice, Reshape family, Transpose, reductions, Concat / Patch with the tensor as operand ...) interleaved after every instruction, the tensors those calls return being re-read at the end; a second epoch on the same tensor and component objects after ResetGradContext, following a back-propagated first epoch and following an untracked first epoch. Every instruction is framed by a bit-level snapshot of all existing tensors (shape, elements, gradient context). All replays run in worker processes that enter the library from one goroutine only; the back-propagation of every case is also recorded through the library's trace sink and validated by TLC (Trace_BPStruct). Differential runs that realise another property's scenario (all inputs untracked: C08; caller slices overwritten: C10) are made by that property's check only.")
+TWINS = (" Every replayed case is additionally executed in four twin runs whose tensors, flags and gradients must be bit-identical to the plain run: the inputs rebuilt with the same elements through other constructions (patched Zeros / Full tensor, concatenated slices, double transpose, reshape round trip, same-shape broadcast, product with the identity matrix; NElems, Equals and the whole-tensor statistics are compared as well); read-only API calls (Slice, Reshape family, Transpose, reductions, Concat / Patch with the tensor as operand ...) interleaved after every instruction, the tensors those calls return being re-read at the end; a second epoch on the same tensor and component objects after ResetGradContext, following a back-propagated first epoch and following an untracked first epoch. Every instruction is framed by a bit-level snapshot of all existing tensors (shape, elements, gradient context). The replaying caller keeps one slice object per distinct index / dimension list and passes that same object in every call that needs those values. All replays run in worker processes that enter the library from one goroutine only; the back-propagation of every case is also recorded through the library's trace sink and validated by TLC (Trace_BPStruct). Differential runs that realise another property's scenario (all inputs untracked: C08; caller slices overwritten: C10) are made by that property's check only.")
 BIG = " Tensors of 1000-16000 elements are covered through parametric templates (spec/Big.tla): one term over the output position per result, proved by TLC (ASSUME TemplatesAgree / GradTemplatesAgree) to unroll to the declarative definition at every position of every shape of the small grid."
 
 def sym(text, design, extra_note=""):
@@ -43,7 +43,7 @@ CHECKS.update({
 CHECKS.update({
  "C09": dict(level="exploration", design="DESIGN.md 3/C09", technique="TLA+ outcome function (Total.tla) evaluated by TLC over the argument grid; every call executed on the real code under recover + watchdog",
    note="Trusted: the preconditions transcribed in spec/TensorOps.tla (Pre), Components.tla (CompPre) and Total.tla from the statement and the validators' documented messages; arguments exhaustive within the stated grid (full product up to length 2, one position varied above), not beyond.",
-   text="TLC evaluates the outcome function of the specification (rejected, or accepted with a shape) for ~20k calls covering every public entry point with integers in [-2,6], ranks 0..5, nil tensors / slices / configs, rectangular and ragged nested data of depth 0..4, mismatched shapes and invalid configurations; the harness performs each call on the real library under recover with a watchdog and requires no panic, no hang, an error and no result exactly when the precondition is violated, otherwise a fully readable result of the specified shape; in addition seeded random histories of calls that ignore the provisos of C08 must return without panicking."),
+   text="TLC evaluates the outcome function of the specification (rejected, or accepted with a shape) for ~20k calls covering every public entry point with integers in [-2,6], ranks 0..5, nil tensors / slices / configs, rectangular and ragged nested data of depth 0..4, mismatched shapes and invalid configurations; the harness performs each call on the real library under recover with a watchdog and requires no panic, no hang, an error and no result exactly when the precondition is violated, otherwise a fully readable result of the specified shape; in addition seeded random histories of calls that ignore the provisos of C08 must return without panicking, and BackPropagate over deep ladders of reconvergent stages (four stage shapes, exponentially many paths) must return within the time limit."),
  "C11": dict(level="model_checking", design="DESIGN.md 3/C11", technique="TLA+ protocol machine (Train.tla) model-checked and every transition replayed on real layers / loss / SGD; symbolic one-step maps from TLC checked along real multi-step trajectories; recorded protocols validated by TLC against the refined protocol machine (trace validation)", note=MC_NOTE,
    text="TLC explores the training-protocol machine (forward, back-propagate, Update per parameter, Reset per parameter, every way of omitting updates and resets) with exact rational weights for the piece-wise rational models and checks Descent, GradIsCurrent, StaleIsAnError, NoLeak; every transition is replayed on a real FC layer, activation, MSE and SGD comparing weights, context state, gradients and ok/error. For every model FC -> activation -> loss TLC emits the symbolic gradient of the composed definitions; the harness runs real multi-step training and checks w_{k+1} = w_k - lr*g(w_k) after every step. In the other direction, Train refines the value-free protocol machine TrainProto (checked by TLC), and random protocols of 25 (40) steps - updates and resets omitted, reordered, resets before updates - recorded from real models of 1-3 layers with any activation are validated by TLC against TrainProto (Trace_Train.tla), every event with the logged (tracked, spent, hasGrad) of every parameter and the ok/error outcome." + KF),
  "C18": dict(level="exploration", design="DESIGN.md 3/C18 and 4", technique="TLA+ parameter table evaluated by TLC; exact shape / tracking / support checks + statistical conformance monitor (8-sigma)",
